@@ -37,8 +37,10 @@ class Cls : gt::Base<ns::Holder<TT>, TT> {
   TT::Traits::Scalar scal(const TT::Traits::Scalar& sc, std::vector<TT::Traits::Scalar> sv) const;
   pair<TT, This> both(TT* p, const This& other);
   static This Make(TT@ raw);
-  template<UU = {double, ns::C}>
-  void tm(const UU& u, TT t);
+  template<UU = {double, ns::C}, VV = {int, ns::A}>
+  void tm(const UU& u, TT t, VV w);
+  template<UU = {size_t, ns::B}, VV = {ns::C, double}>
+  static This Build(UU u, const VV& w);
   TT prop;
   This operator+(const This& o) const;
   __len__();
@@ -49,7 +51,7 @@ template<TT = {%s}>
 TT fun(const TT& a, std::vector<TT::Value> v);
 }
 """
-IN_USE = ["key", "Holder", "Traits", "Scalar", "scal", "sc", "sv", "Cls", "Base", "Mode", "M1", "M2", "A", "B", "C", "ns", "gt", "This", "Value", "std", "vector", "map", "int", "pair", "UU", "double",
+IN_USE = ["VV", "w", "Build", "key", "Holder", "Traits", "Scalar", "scal", "sc", "sv", "Cls", "Base", "Mode", "M1", "M2", "A", "B", "C", "ns", "gt", "This", "Value", "std", "vector", "map", "int", "pair", "UU", "double",
           "t", "m", "vs", "mm", "p", "other", "raw", "u", "o", "a", "v", "mode", "value", "both", "Make", "tm", "prop", "fun", "void", "const",
           "operator", "static", "template", "class", "enum", "bool", "char", "size_t", "float", "typedef", "virtual", "namespace", "unsigned"]
 INSTS = ["ns::A", "ns::B", "ns::C"]
